@@ -1,6 +1,7 @@
 (* C09 -- grid_() of a dense vector field model re-expresses the parameters on the new grid and
-   installs that grid, so the world-space deformation is preserved -- provided the two grids do not
-   compare equal under Grid.__eq__ (which ignores align_corners). *)
+   installs that grid, so the world-space deformation is preserved.  SpatialTransform.grid_ returns
+   early only when its test (Grid.__eq__ and equal align_corners) passes, i.e. for the grid the
+   transform already has. *)
 From Coq Require Import List Bool Arith Lia.
 From DV Require Import Model.TransformState Proofs.C09Fresh Proofs.C09Replace.
 Import ListNotations.
@@ -113,41 +114,48 @@ Proof.
   unfold TransformState.tval. rewrite Ht3, Ht2. cbn. apply nth_app_new.
 Qed.
 
-(* the theorem *)
+(* the theorem: for EVERY new grid; `geq` (the early-return test of SpatialTransform.grid_) is assumed
+   to pass only for the grid the transform already has *)
+Hypothesis geq_sound : forall a b, geq a b = true -> a = b.
+
 Theorem dense_grid_set_reexpresses s o g s1 ob r ip :
   get_obj s o = Some ob -> is_dense (o_kind P G C ob) = true -> slots_wf ob ->
   get_params s ob = Some (VTen r ip) ->
-  geq (o_grid P G C ob) g = false ->
   grid_set s o g = Ok tt s1 ->
   holds s1 o (regrid (o_kind P G C ob) (tval s r) (o_grid P G C ob) g) g.
 Proof.
-  destruct (cfg_all_fields _ Hcf) as (_ & _ & _ & Hgc & _ & _ & _ & _ & _ & _ & _ & _ & _ & _ & _ & Hdg).
-  intros Hg Hd Hw Hp Hq H. unfold TransformState.grid_set, with_obj in H. fold (get_obj s o) in H.
+  destruct (cfg_all_fields _ Hcf) as (_ & _ & _ & Hgc & _ & _ & _ & _ & _ & _ & _ & _ & _ & _ & _ & Hdg & _).
+  intros Hg Hd Hw Hp H. unfold TransformState.grid_set, with_obj in H. fold (get_obj s o) in H.
   rewrite Hg, Hd, Hp, Hdg in H.
   assert (Hnr : is_nonrigid (o_kind P G C ob) = true) by (unfold is_nonrigid; rewrite Hd; reflexivity).
   assert (Hks : o_kind P G C ob <> KSeq) by (destruct (o_kind P G C ob); cbn in Hd; congruence).
-  (* the base method clears and installs g *)
-  unfold base_grid_set in H. fold (get_obj s o) in H. rewrite Hg, Hq, Hgc in H.
-  destruct (clear_keeps_params s o ob Hg Hks) as (ob1 & Hg1 & Hp1 & Hgr1 & Ht1 & Hk1).
-  fold (get_obj (clear_buffers s o) o) in H. rewrite Hg1 in H.
-  match type of H with context [TransformState.data_set _ _ _ _ _ ?s' _ ?p false] =>
-    destruct (data_set s' o p false) as [[] s2|] eqn:Ed; try discriminate;
-    assert (Hg2 : get_obj s' o = Some (set_grid P G C ob1 g)) by apply (get_set_same' _ _ _ _ Hg1)
-  end.
-  injection H as <-.
-  assert (Hw2 : slots_wf (set_grid P G C ob1 g)).
-  { (* clearing and set_grid leave the slots alone *)
-    unfold TransformState.clear_buffers in Hg1. fold (get_obj s o) in Hg1. rewrite Hg in Hg1.
-    assert (E : TransformState.clear1 P G C cf s o = set_obj s o (clear_obj P G C cf ob)).
-    { unfold clear1. fold (get_obj s o). rewrite Hg. reflexivity. }
-    assert (Hx : ob1 = clear_obj P G C cf ob).
-    { destruct (o_kind P G C ob) eqn:Ek; try congruence; rewrite E in Hg1;
-      rewrite (get_set_same' _ _ _ _ Hg) in Hg1; congruence. }
-    subst ob1. unfold slots_wf, clear_obj in *. destruct (is_nonrigid (o_kind P G C ob)); destruct ob; cbn in *; auto. }
-  assert (Hk2 : o_kind P G C (set_grid P G C ob1 g) <> KSeq) by (destruct ob1; cbn in *; congruence).
-  pose proof (data_set_holds _ _ _ _ _ Hg2 Hk2 Hw2 Ed) as Hh.
-  replace (o_grid P G C (set_grid P G C ob1 g)) with g in Hh by (destruct ob1; reflexivity).
-  exact Hh.
+  unfold base_grid_set in H. fold (get_obj s o) in H. rewrite Hg, Hgc in H.
+  destruct (geq (o_grid P G C ob) g) eqn:Hq.
+  - (* the grid the transform already has: parameters re-expressed on the same grid *)
+    apply geq_sound in Hq. subst g.
+    match type of H with context [TransformState.data_set _ _ _ _ _ ?s' _ ?p false] =>
+      destruct (data_set s' o p false) as [[] s2|] eqn:Ed; try discriminate end.
+    injection H as <-. exact (data_set_holds _ _ _ _ _ Hg Hks Hw Ed).
+  - (* the base method clears and installs g *)
+    destruct (clear_keeps_params s o ob Hg Hks) as (ob1 & Hg1 & Hp1 & Hgr1 & Ht1 & Hk1).
+    fold (get_obj (clear_buffers s o) o) in H. rewrite Hg1 in H.
+    match type of H with context [TransformState.data_set _ _ _ _ _ ?s' _ ?p false] =>
+      destruct (data_set s' o p false) as [[] s2|] eqn:Ed; try discriminate;
+      assert (Hg2 : get_obj s' o = Some (set_grid P G C ob1 g)) by apply (get_set_same' _ _ _ _ Hg1)
+    end.
+    injection H as <-.
+    assert (Hw2 : slots_wf (set_grid P G C ob1 g)).
+    { unfold TransformState.clear_buffers in Hg1. fold (get_obj s o) in Hg1. rewrite Hg in Hg1.
+      assert (E : TransformState.clear1 P G C cf s o = set_obj s o (clear_obj P G C cf ob)).
+      { unfold clear1. fold (get_obj s o). rewrite Hg. reflexivity. }
+      assert (Hx : ob1 = clear_obj P G C cf ob).
+      { destruct (o_kind P G C ob) eqn:Ek; try congruence; rewrite E in Hg1;
+        rewrite (get_set_same' _ _ _ _ Hg) in Hg1; congruence. }
+      subst ob1. unfold slots_wf, clear_obj in *. destruct (is_nonrigid (o_kind P G C ob)); destruct ob; cbn in *; auto. }
+    assert (Hk2 : o_kind P G C (set_grid P G C ob1 g) <> KSeq) by (destruct ob1; cbn in *; congruence).
+    pose proof (data_set_holds _ _ _ _ _ Hg2 Hk2 Hw2 Ed) as Hh.
+    replace (o_grid P G C (set_grid P G C ob1 g)) with g in Hh by (destruct ob1; reflexivity).
+    exact Hh.
 Qed.
 
 (* world-space reading: any semantics under which regrid preserves the deformation *)
@@ -155,12 +163,11 @@ Corollary dense_grid_set_preserves_world (W : Type) (world : P -> G -> W) s o g 
   (forall k p a b, world (regrid k p a b) b = world p a) ->
   get_obj s o = Some ob -> is_dense (o_kind P G C ob) = true -> slots_wf ob ->
   get_params s ob = Some (VTen r ip) ->
-  geq (o_grid P G C ob) g = false ->
   grid_set s o g = Ok tt s1 ->
-  exists p' g', holds s1 o p' g' /\ world p' g' = world (tval s r) (o_grid P G C ob).
+  exists p', holds s1 o p' g /\ world p' g = world (tval s r) (o_grid P G C ob).
 Proof.
-  intros Hw Hg Hd Hs Hp Hq H.
-  exists (regrid (o_kind P G C ob) (tval s r) (o_grid P G C ob) g), g. split.
+  intros Hw Hg Hd Hs Hp H.
+  exists (regrid (o_kind P G C ob) (tval s r) (o_grid P G C ob) g). split.
   - eapply dense_grid_set_reexpresses; eauto.
   - apply Hw.
 Qed.
